@@ -23,7 +23,7 @@ RULE = ("per container configuration: every contents state up to the length "
 EXPLANATION = ("direct exploration of the implementation; oracle = independent"
                " re-validation walk + reference model (built-in container on "
                "converted items + declared length bounds)")
-BOUNDS = {"quick": "list states of length 0..3, dict/set states over 2-3 "
+BOUNDS = {"quick": "20 configurations + 8 one-off cells; list states of length 0..3, dict/set states over 2-3 "
                    "keys/items, payload length 0..3, depth-2 on short states",
           "thorough": "list states of length 0..4, depth-2 on all states of "
                       "length<=2"}
